@@ -182,3 +182,75 @@ def check_C01(tier, seed):
     jt_replay("C01", tier, seed, res, classes=("panic", "crash", "leak"))
     jt_record_validate("C01", tier, seed + 3, res, 4000 if tier == QUICK else 300000, checks=("panic",))
     return res.finish()
+
+
+def lg_record_validate(prop, tier, seed, res, n, checks, exe=None):
+    exe = exe or build_harness()
+    out = fresh(prop, "lg")
+    shards = 16
+    rc, o, err = run_vh(exe, ["lg-record", "--seed", seed, "--n", n, "--out", os.path.join(out, "trace"), "--shards", shards],
+                        inflight=os.path.join(out, "inflight"))
+    if rc != 0:
+        cid, hx = read_inflight(os.path.join(out, "inflight"))
+        res.add_mismatch({"suite": "lg-record", "class": "crash", "kind": "crash", "rc": rc, "case": cid, "bytes_hex": hx,
+                          "bytes_lossy": bytes.fromhex(hx).decode("utf-8", "replace"),
+                          "why": "process died (rc %s) while recording case %s: %s" % (rc, cid, err[-300:])})
+        return
+    summ = json.loads(o.strip().splitlines()[-1])
+    files = [os.path.join(out, "trace.%d.ndjson" % i) for i in range(shards)]
+    t0 = time.time()
+    accepted, rejects = tlc_trace("Trace_LazyGet", files, consts={"Checks": "{%s}" % ", ".join('"%s"' % c for c in checks)})
+    log("lazy-get trace validation: %d lines accepted, %d rejects, %.1fs" % (accepted, len(rejects), time.time() - t0))
+    for r in rejects:
+        ev = r["event"] or {}
+        bad = json.loads(r["why"]) if r["why"].startswith("[") else [r["why"]]
+        for ep in bad:
+            x = ev.get("res", {}).get(ep, {})
+            res.add_mismatch({"suite": "lg-trace", "ev": ev.get("ev"), "ep": ep, "kind": ev.get("origin"),
+                              "bytes_hex": bytes(ev.get("b", [])).hex(), "bytes_lossy": bytes(ev.get("b", [])).decode("utf-8", "replace"),
+                              "path": ev.get("path", ev.get("paths")), "impl": x,
+                              "why": "trace line %d (%s event) rejected by Trace_LazyGet for entry point %s" % (r["line_no"], ev.get("ev"), ep),
+                              "trace_file": r["file"], "line_no": r["line_no"]})
+    c = res.coverage
+    c["traces_validated_against_impl"] += accepted
+    c["evaluations"] += summ["events"]
+    c.setdefault("record", {})["lg"] = dict(summ, accepted_lines=accepted, rejected=len(rejects))
+    with open(files[0]) as f:
+        ev = json.loads(f.readline())
+    c["samples"].append({"trace_event": {"ev": ev["ev"], "origin": ev.get("origin"), "bytes": bytes(ev["b"]).decode("utf-8", "replace")[:200],
+                                         "path": ev.get("path", ev.get("paths")), "res": {k: v.get("ok", v.get("items")) for k, v in ev["res"].items()}}})
+
+
+def check_C10(tier, seed):
+    res = Result("C10", tier, seed, "model_checking")
+    res.coverage["rule"] = ("recorded get / get_unchecked / carrier / DOM-lazy-owned pointer calls on generated, mutated and block-edge stress documents; TLC recomputes "
+                            "Lookup(Denotes(bytes), path) (first member wins) and compares Ok/Err, the returned span by byte offsets, and the error category")
+    lg_record_validate("C10", tier, seed, res, 6000 if tier == QUICK else 200000, ("c10", "panic"))
+    return res.finish()
+
+
+def check_C11(tier, seed):
+    res = Result("C11", tier, seed, "model_checking")
+    res.coverage["rule"] = ("recorded get_many / get_many_unchecked calls with shape-consistent path sets (shared prefixes, repeated paths, prefix that is also a target, "
+                            "missing keys) on generated duplicate-free documents: TLC checks one slot per path in order, filled slot = Lookup span, empty slot = unknown key, "
+                            "all filled when every path resolves")
+    lg_record_validate("C11", tier, seed + 11, res, 6000 if tier == QUICK else 200000, ("c11", "panic"))
+    return res.finish()
+
+
+def check_C12(tier, seed):
+    res = Result("C12", tier, seed, "model_checking")
+    res.coverage["rule"] = ("recorded runs of the four lazy iterators (+ unchecked, + LazyValue::into_*_iter) and of the stream deserializer, polled 3 more times after "
+                            "the first error/end: TLC compares the yielded spans and decoded keys with Members(first value) on well-formed input, with the members "
+                            "completed before the lax machine rejects on malformed input (then exactly one error), and checks the latch")
+    lg_record_validate("C12", tier, seed + 12, res, 6000 if tier == QUICK else 200000, ("c12", "latch", "stream", "panic"))
+    return res.finish()
+
+
+def check_C14(tier, seed):
+    res = Result("C14", tier, seed, "model_checking")
+    res.coverage["rule"] = ("recorded checked get / get_many / iterator calls on mutated, truncated and garbage documents: whenever a value is returned TLC checks that its raw "
+                            "text is a well-formed value with valid UTF-8 inside the input, and that the lax machine run over the bytes before it, without rejecting, is "
+                            "exactly at the value of the target (one open container per path element, wanted key pending / index reached)")
+    lg_record_validate("C14", tier, seed + 14, res, 6000 if tier == QUICK else 200000, ("c14", "panic"))
+    return res.finish()
